@@ -80,7 +80,8 @@ SPEC = {
     "theorems": [T + n for n in [
         "source_shape", "expand_terminates", "expand_never_hangs", "object_like_is_substitution", "function_like_is_substitution",
         "define_undef_scoping", "macro_names_always_distinct", "api_defines_equal_file_defines",
-        "expand_refines_spec_partial", "include_is_paste", "pragma_once_once"]],
+        "expand_refines_spec_partial", "expand_refines_spec", "expand_refines_spec_decided", "object_like_refines_spec",
+        "include_is_paste", "pragma_once_once"]],
     "harness": "c12",
     "nontrivial": nontrivial,
     "finding_key": finding_key,
